@@ -15,7 +15,7 @@ def first_line(text):
     return ""
 
 
-def main():
+def table():
     rows = []
     for f in sorted(glob.glob(os.path.join(HERE, "seeded", "*", "meta.json"))):
         m = json.load(open(f))
@@ -28,10 +28,25 @@ def main():
         missed = [c for c, r in sorted(m.get("checks", {}).items()) if not r.get("caught")]
         rows.append((name, ", ".join(m.get("files", [])), first_line(m.get("needs_to_manifest")),
                      "; ".join(caught) or "-", ", ".join(missed) or "-"))
-    print("| seeded change | files | what it is | caught by | not caught by |")
-    print("|---|---|---|---|---|")
+    out = ["| seeded change | files | what it is | caught by | not caught by |", "|---|---|---|---|---|"]
     for r in rows:
-        print("| %s | %s | %s | %s | %s |" % r)
+        out.append("| %s | %s | %s | %s | %s |" % tuple(x.replace("|", "/") for x in r))
+    return "\n".join(out)
+
+
+BEGIN, END = "<!-- seed-table:begin (tools/seed_table.py --design) -->", "<!-- seed-table:end -->"
+
+
+def main():
+    import sys
+    t = table()
+    if "--design" in sys.argv:
+        p = os.path.join(HERE, "DESIGN.md")
+        s = open(p).read()
+        i, j = s.index(BEGIN) + len(BEGIN), s.index(END)
+        open(p, "w").write(s[:i] + "\n" + t + "\n" + s[j:])
+    else:
+        print(t)
 
 
 if __name__ == "__main__":
